@@ -23,14 +23,14 @@ ASSUMPTIONS = [
     "match(): candidates are the files found in the max_interval-widened period; file times "
     "are generated on whole seconds (match converts to integer seconds)",
 ]
-MIN_NONTRIVIAL = {"quick": 300, "thorough": 3000}
+MIN_NONTRIVIAL = {"quick": 300, "thorough": 30000}
 REQUIRED_COUNTERS = {"tree.query.calls": 100, "tree.points.calls": 100, "match.calls": 20}
 SHARD_TIMEOUT = {"quick": 600, "thorough": 5400}
 
 
 def shards(tier, seed):
-    n_tree = 400 if tier == "quick" else 6000
-    n_match = 14 if tier == "quick" else 220
+    n_tree = 400 if tier == "quick" else 150000
+    n_match = 14 if tier == "quick" else 3000
     out = []
     for i in range(8):
         out.append({"kind": "tree", "seed": seed, "shard": i, "n": n_tree})
